@@ -503,6 +503,14 @@ def fuzz_form(rng):
         form["osm"] = [{"list_name": rng.choice(["l", "zz"]), "name": "k", "label": "K"}]
     if rng.random() < 0.5:
         rich_sheets(rng, form)
+    if rng.random() < 0.12:
+        # a structural column written with a language or sub-key part: type::en, list_name::x, name:fr ...
+        sh = rng.choice(sorted(form))
+        key = rng.choice(["type", "name", "list_name", "dataset", "list name", "parameters", "entity_id"])
+        new = key + rng.choice(["::en", "::x", ":en", "::", " :: x", "::a::b"])
+        for r in form[sh]:
+            if key in r:
+                r[new] = r.pop(key)
     return form
 
 
@@ -555,6 +563,46 @@ def _check_fuzz(args):
     if st == "crash":
         return {"i": i, "input": {"form": form, "case": i, "stream": "fuzz"}, "what": f"internal exception {r[0]} in {r[1]}: {r[2]}", "finding": classify(r, form)}
     return {"i": i, "ok": True, "key": ("fuzz", st, hash(json.dumps(form, sort_keys=True))), "n": 1 if st == "pyxerr" else 0, "class": st}
+
+
+# ---- a XLSForm given as a dict: typed values (as a JSON document or a spreadsheet library delivers them) and other shapes ----------------
+DICT_VALUES = [7, 0, -3, 2.5, 0.00001, 1e16, True, False, None, "", " ", ["a"], {"en": "x"}, {"en": 5}, {"en": None}, ("a",), b"x", 3 + 0j, float("nan"), {1: "x"}]
+
+
+def dict_shape(rng):
+    form = fuzz_form(rng)
+    d = forms.as_dict(form)
+    if rng.random() < 0.5:
+        d.pop("sheet_names", None)
+    for _ in range(rng.randint(1, 4)):
+        k = rng.random()
+        sheets = [sh for sh in ("survey", "choices", "settings", "external_choices", "entities", "osm") if isinstance(d.get(sh), list) and d[sh] and all(isinstance(r, dict) for r in d[sh])]
+        if k < 0.6 and sheets:
+            sh = rng.choice(sheets)
+            row = rng.choice(d[sh])
+            col = rng.choice(list(row) or ["label"]) if rng.random() < 0.8 else rng.choice(["label", "default", "required", "version", "name", "parameters", "bind::x", 3, None])
+            row[col] = rng.choice(DICT_VALUES)
+        elif k < 0.7:
+            d[rng.choice(["foo", "surveys", "Survey", "survey_headers", 1])] = rng.choice([[], [{"a": "b"}], "x", None])
+        elif k < 0.8 and sheets:
+            sh = rng.choice(sheets)
+            d[sh] = rng.choice(["x", 5, {"type": "text"}, [["type", "name"]], ["row"], [None]]) if rng.random() < 0.7 else tuple(d[sh])
+        elif k < 0.9:
+            d[rng.choice(["survey_header", "choices_header", "settings_header"])] = rng.choice(["x", 5, [None], [["type"]], [{"type": None, 3: None}], []])
+        else:
+            d[rng.choice(["sheet_names", "fallback_form_name"])] = rng.choice([5, "x", ["survey", 3], None, [None], {"a": 1}])
+    return d
+
+
+def _check_dict(args):
+    seed, i = args
+    rng = rng_for(seed, PID, "dict", i)
+    d = dict_shape(rng)
+    desc = repr(d)[:1500]
+    st, r = outcome(d)
+    if st == "crash":
+        return {"i": i, "input": {"dict_repr": desc, "case": i, "stream": "dict"}, "what": f"internal exception {r[0]} in {r[1]}: {r[2]}", "finding": classify(r, None)}
+    return {"i": i, "ok": True, "key": ("dict", st, hash(desc)), "n": 1 if st == "pyxerr" else 0, "class": "dict-" + st}
 
 
 CT_CELLS = ["type", "name", "label", "text", "q1", "A b", "", " ", "select_one l", "l", "list_name", "begin group", "end group", "integer", "hint", "x#y", "#", "é", "a\\|b", "-",
@@ -680,7 +728,8 @@ def oracle(seed, tier, searching=False):
     res_f = pmap(_check_fuzz, [(seed, i) for i in range(nf)])
     res_c = pmap(_check_container, [(seed, i) for i in range(nf // 2)])
     res_b = pmap(_check_bytes, [(seed, i) for i in range(nf // 5)])
-    res_f = res_f + res_c + res_b
+    res_d = pmap(_check_dict, [(seed, i) for i in range(nf // 3)])
+    res_f = res_f + res_c + res_b + res_d
     res = res_m + res_f
     fails = [r for r in res if "what" in r]
     oks = [r for r in res if r.get("ok")]
@@ -715,7 +764,8 @@ def oracle(seed, tier, searching=False):
                 "row where the kind carries one and name the subject; fuzz stream: rows drawn from the XLSForm vocabulary (all question types and "
                 "select/group/osm/external spellings, valid and invalid names, parameters, references, appearances, entities/osm/external sheets): the "
                 "only outcomes are a result or the library's error; container stream: Markdown and CSV TEXTS built from the same vocabulary (ragged rows, sheet names with no rows, "
-                "unknown and misspelt sheets, rows above the first sheet name, settings columns named after internal keys) through convert(): same demand; bytes stream: random bytes, "
+                "unknown and misspelt sheets, rows above the first sheet name, settings columns named after internal keys) through convert(): same demand; dict stream: the fuzz forms as dicts "
+                "with numbers, booleans, None, lists, nested dicts and other objects as cell values, unknown keys, sheets and header lists of other shapes: same demand; bytes stream: random bytes, "
                 "truncated and bit-damaged workbooks under every file_type: same demand",
         "accepted": len(oks), "mutations_checked": per_mut, "skipped": skips, "fuzz_outcomes": classes, "known_finding_hits": known_hits,
         "failures": [{"input": f["input"], "what": f["what"], "finding": f.get("finding"),
